@@ -241,6 +241,11 @@ def gen_plan(prop, tier, rng, i):
     cfg = M.gen_cfg(rng, prof, cell=cell)
     t = 0
     while cfg.typical_capacity() > (3000 if prop != "C07" else 1500) and t < 30:
+        if prop != "C07" and rng.random() < 0.35:
+            # keep a very high rate (more than 3000 samples per file even at 1 ms, up to 2**32-1 Hz, absolute
+            # indices beyond 2**63): sparse gapped files only, an un-chunked file would be huge
+            cfg.continuous = False
+            break
         cfg = M.gen_cfg(rng, prof, cell=cell)
         t += 1
     if prop == "C07":
@@ -254,6 +259,10 @@ def gen_plan(prop, tier, rng, i):
     if prop == "C06":
         # regeneration from every file of the channel: all (<= 16) files in the thorough tier, 3 in quick
         plan["regen_each"] = 16 if thorough else 3
+        if i % 5 == 2:
+            plan["restart_at"] = rng.randrange(4, 70)
+            plan["restart_off"] = rng.choice([0.0, 0.5])
+            plan["restart_nops"] = rng.choice([1, 1, 2])
     if prop == "C11" or (prop in ("C08", "C04", "C06") and i % 4 == 3):
         # (C08 / C04 / C06: a quarter of the channels are multi-session / multi-directory ones - bounds, reads,
         #  file placement and per-session attributes must hold over restarts as well)
@@ -275,7 +284,14 @@ def gen_plan(prop, tier, rng, i):
             rel = s.next_avail + rng.choice([0, 0, 3, cap])
             ops.insert(j, {"op": "w", "rel": rel, "_rel": rel, "len": 0, "salt": 5000})
         ops = _bound(cfg, ops, 16)
-        plan["sessions"] = [{"top": "t0", "uuid": "sess0", "start": cfg.start, "ops": ops}]
+        plan["sessions"] = [{"top": rng.choice(["t0", "t0", "tmp.t0", "x.tmp.rf@1"]), "uuid": "sess0", "start": cfg.start,
+                             "ops": ops}]
+        if rng.random() < (0.5 if prop == "C07" else 0.15):
+            # a throw-away writer of another element type / byte order in the same process first
+            pk = rng.choice(["i2", "f4", "f8", "i4"])
+            plan["sessions"][0]["prelude"] = dict(cfg.to_json(), kind=pk, order=">" if cfg.order == "<" or rng.random() < 0.7 else "<",
+                                                  cstyle="real", nsub=1, continuous=True, compression=0, checksum=False,
+                                                  channel="pre", uuid="prelude")
     model = _plan_model(cfg, plan["sessions"])
     nq = {"C08": 30, "C01": 12}.get(prop, 5)
     plan["queries"] = _gen_queries(rng, cfg, model, nq)
@@ -505,6 +521,15 @@ def _run_session(ctx, tree, cfg, sess, si, chan_model, state):
     sc = state["scratch"]
 
     def child(report):
+        if sess.get("prelude"):
+            # another channel is recorded (and closed) by the same process first: state that outlives a writer
+            # object inside the library must not leak into the next one
+            pc = M.Cfg(**sess["prelude"])
+            ptop = os.path.join(tree, "prelude%d" % si)
+            os.makedirs(os.path.join(ptop, pc.channel), exist_ok=True)
+            pw = RN.open_writer(ptop, pc)
+            RN.do_op(pw, pc, {"op": "w", "rel": 0, "_rel": 0, "len": 3, "salt": 9999})
+            pw.close()
         RN.run_session(report, top, c, ops, session=si, sync=True)
 
     if sess.get("mismatch"):
@@ -1143,6 +1168,24 @@ def run_plan(prop, plan):
         _queries(ctx, readers, cfg, chan_model, plan.get("queries", []))
         if plan.get("cnode") and len(plan["sessions"]) == 1 and os.environ.get("VSIM_CNODE"):
             _run_cnode(ctx, cfg, plan["sessions"][0]["ops"], sc, os.environ["VSIM_CNODE"])
+        if prop == "C06" and plan.get("restart_at") is not None and len(plan["sessions"]) == 1:
+            # a recorder killed mid-way and restarted inside the period that was in progress: every file that ends
+            # up under a final name must still be interpretable on its own (oracle of crashsim, C06 clauses)
+            from . import crashsim
+
+            r4 = K.RunResult()
+            sub = {"cfg": plan["cfg"], "ops": [o for o in plan["sessions"][0]["ops"] if not o.get("invalid")],
+                   "restart_off": plan.get("restart_off", 0.0), "restart_nops": plan.get("restart_nops", 1)}
+            seams.uninstall()
+            crashsim._restart_run("C06", sub, r4, plan["restart_at"])
+            seams.install(tree, plan.get("readdir_seed", 1))
+            for v_ in r4.violations:
+                v_["sig"]["restart"] = True
+                res.violations.append(v_)
+            for kk, vv in r4.faults.items():
+                res.faults[kk] = res.faults.get(kk, 0) + vv
+            for kk, vv in r4.probes.items():
+                res.probes[kk] = res.probes.get(kk, 0) + vv
         if plan.get("regen") and len(tops) >= 1:
             _regenerate(ctx, cfg, per_top_models[tops[0]], tree, tops[0], plan)
             if plan.get("regen_each"):
